@@ -57,7 +57,7 @@ func (p *Prog) allowedFn(fn *FuncInfo, allowed map[string]string, depth int) boo
 	if _, ok := allowed[fn.Key()]; ok {
 		return true
 	}
-	if depth >= 3 || isExported(fn.Name) {
+	if depth >= 3 {
 		return false
 	}
 	p.buildCallers()
